@@ -232,4 +232,29 @@ theorem mem_box_invariant (c : Cfg) (m : Mem) (s : Store) (h : R c m s) (b : Byt
 theorem exMem_pairs :
     ((runMem exCfg Model.Mem.empty exOps).1.boxes [97]).msgs.map (·.index) = [2, 3] := by decide
 
+/-! ### Part 3 — a walk over all mailboxes that is told to stop -/
+
+/-- `VisitMailboxes` with a visitor that says "stop" at the `k`-th non-empty mailbox: it is shown exactly `min k n` mailboxes, `n` the number of
+    non-empty mailboxes — the walk neither ends early nor goes on after the visitor said stop. -/
+theorem visit_until_shows (s : Store) (k : Nat) :
+    (visitUntil s k).length = min k (boxNames s.msgs).length := by
+  simp [visitUntil, List.length_take]
+
+/-- What a stopping visitor is shown is a prefix of what a visitor that never stops is shown (same mailboxes, same listings, same order). -/
+theorem visit_until_prefix (c : Cfg) (s : Store) (k : Nat) :
+    ∃ rest, (Spec.Store.step c s .visit).2.1 = .boxes (visitUntil s k ++ rest) := by
+  refine ⟨((boxNames s.msgs).map (listing s)).drop k, ?_⟩
+  simp [Spec.Store.step, visitUntil, List.take_append_drop]
+
+/-- A visitor that never says stop within the walk sees everything. -/
+theorem visit_until_all (c : Cfg) (s : Store) (k : Nat) (h : (boxNames s.msgs).length ≤ k) :
+    (Spec.Store.step c s .visit).2.1 = .boxes (visitUntil s k) := by
+  simp [Spec.Store.step, visitUntil, List.take_of_length_le, h]
+
+/-- Stopping a walk changes nothing in the store (the walk is a read). -/
+theorem visit_keeps_store (c : Cfg) (s : Store) : (Spec.Store.step c s .visit).1 = s := by
+  simp [Spec.Store.step]
+
+example : (visitUntil (run exCfg Spec.Store.empty exOps).1 1).length = 1 := by decide
+
 end Ibx.Props.C07
